@@ -658,12 +658,52 @@ type cmpModel struct {
 	i, j  types.Object
 	keys  []string // accessor strings with the index replaced by '#'
 	three bool     // slices.SortFunc style (returns int): not supported
+	// locals of the comparator defined once by `x := <expression over i / j>`: read as that expression
+	locals map[types.Object]ast.Expr
+}
+
+// expand replaces the comparator's single-definition locals by their defining expressions (copying the nodes on the way).
+func (c *cmpModel) expand(e ast.Expr, depth int) ast.Expr {
+	if depth > 8 || len(c.locals) == 0 {
+		return e
+	}
+	switch x := e.(type) {
+	case *ast.Ident:
+		if def, ok := c.locals[c.d.info.Uses[x]]; ok {
+			d := c.expand(def, depth+1)
+			switch d.(type) {
+			case *ast.Ident, *ast.IndexExpr, *ast.SelectorExpr, *ast.CallExpr, *ast.ParenExpr, *ast.BasicLit:
+				return d // binds as tightly as an identifier: no parentheses needed
+			}
+			return &ast.ParenExpr{X: d}
+		}
+	case *ast.ParenExpr:
+		return &ast.ParenExpr{X: c.expand(x.X, depth+1)}
+	case *ast.SelectorExpr:
+		return &ast.SelectorExpr{X: c.expand(x.X, depth+1), Sel: x.Sel}
+	case *ast.IndexExpr:
+		return &ast.IndexExpr{X: c.expand(x.X, depth+1), Index: c.expand(x.Index, depth+1)}
+	case *ast.StarExpr:
+		return &ast.StarExpr{X: c.expand(x.X, depth+1)}
+	case *ast.UnaryExpr:
+		return &ast.UnaryExpr{Op: x.Op, X: c.expand(x.X, depth+1)}
+	case *ast.BinaryExpr:
+		return &ast.BinaryExpr{X: c.expand(x.X, depth+1), Op: x.Op, Y: c.expand(x.Y, depth+1)}
+	case *ast.CallExpr:
+		n := &ast.CallExpr{Fun: c.expand(x.Fun, depth+1)}
+		for _, a := range x.Args {
+			n.Args = append(n.Args, c.expand(a, depth+1))
+		}
+		return n
+	}
+	return e
 }
 
 // accessor renders e with index parameters replaced by '#', returning which index it uses (0 none, 1 i, 2 j, 3 both).
 func (c *cmpModel) accessor(e ast.Expr) (string, int) {
 	uses := 0
 	var b bytes.Buffer
+	e = stripParens(c.expand(e, 0))
 	cp := e
 	printer.Fprint(&b, c.d.P.Fset, cp)
 	ast.Inspect(e, func(n ast.Node) bool {
@@ -677,7 +717,7 @@ func (c *cmpModel) accessor(e ast.Expr) (string, int) {
 		}
 		return true
 	})
-	s := b.String()
+	s := strings.Join(strings.Fields(b.String()), "") // nodes rebuilt by expand have no positions: the printer may break lines
 	// replace identifier occurrences of the index names inside brackets
 	in, jn := c.i.Name(), c.j.Name()
 	s = replaceIdent(s, in, "#")
@@ -779,6 +819,23 @@ func (c *cmpModel) stmt(s ast.Stmt, rel func(string) int, swapped bool) (done, v
 			}
 		}
 		return false, false, ""
+	case *ast.AssignStmt:
+		// `a, b := x[i], x[j]`: single definitions of pure expressions
+		if x.Tok == token.DEFINE && len(x.Lhs) == len(x.Rhs) {
+			for k, l := range x.Lhs {
+				id, ok := l.(*ast.Ident)
+				if !ok {
+					return false, false, "assignment to a non-identifier in comparator"
+				}
+				if obj := c.d.info.Defs[id]; obj != nil {
+					if c.locals == nil {
+						c.locals = map[types.Object]ast.Expr{}
+					}
+					c.locals[obj] = x.Rhs[k]
+				}
+			}
+			return false, false, ""
+		}
 	}
 	return false, false, fmt.Sprintf("unsupported statement %T in comparator", s)
 }
@@ -833,7 +890,7 @@ func applyOp(op token.Token, sign int) (bool, bool) {
 }
 
 func (c *cmpModel) boolExpr(e ast.Expr, rel func(string) int, swapped bool) (bool, string) {
-	e = stripParens(e)
+	e = stripParens(c.expand(stripParens(e), 0))
 	switch x := e.(type) {
 	case *ast.UnaryExpr:
 		if x.Op == token.NOT {
